@@ -71,7 +71,9 @@ func c35RunBatch(s *c35Srv, batch []*c35Input) []c35Result {
 		wg.Add(1)
 		go func(i int) {
 			defer wg.Done()
+			t0 := time.Now()
 			res[i] = s.send(batch[i])
+			res[i].Took = time.Since(t0)
 		}(i)
 	}
 	wg.Wait()
@@ -106,9 +108,11 @@ func c35Live(t *testing.T, name string, restricted bool) {
 	}
 	fmt.Printf("C35 %s: journal=%s (replay: VERIF_C35_REPLAY=<copy of that file> -test.run TestVerifC35Replay)\n", name, os.Getenv("VERIF_JOURNAL"))
 
-	batchMax := kit.EnvInt("C35_BATCH", 14)
+	batchMax := kit.EnvInt("C35_BATCH", 24)
+	quota := 1 << 30 // batches this test may send; the restricted variant gets a fraction of -rapid.checks
 	if restricted {
-		batchMax = kit.EnvInt("C35_BATCH_RESTRICTED", 8)
+		batchMax = kit.EnvInt("C35_BATCH_RESTRICTED", 16)
+		quota = kit.EnvInt("C35_RESTRICTED_BATCHES", 10)
 	}
 	only := os.Getenv("C35_ONLY")
 	debug := os.Getenv("C35_DEBUG") != ""
@@ -119,6 +123,9 @@ func c35Live(t *testing.T, name string, restricted bool) {
 		if dead != "" {
 			t.Fatalf("%s", dead)
 		}
+		if batches >= quota {
+			return
+		}
 		n := rapid.IntRange((batchMax+1)/2, batchMax).Draw(t, "batchSize")
 		batch := make([]*c35Input, n)
 		levels := make([]int, n)
@@ -127,6 +134,9 @@ func c35Live(t *testing.T, name string, restricted bool) {
 			g := &c35G{s: srv, x: x}
 			batch[i] = c35Listeners[c35PickListener(x, only)].gen(g)
 			levels[i] = x.Level
+			for _, k := range c35RepairKnown(batch[i], kit.Known) {
+				rec.Excluded(k)
+			}
 		}
 		js, err := json.Marshal(c35Journal{Test: name, Restricted: restricted, Inputs: batch})
 		if err != nil {
@@ -134,9 +144,14 @@ func c35Live(t *testing.T, name string, restricted bool) {
 		}
 		kit.Journal(string(js) + "\n") // on disk before the first byte leaves
 
+		tb := time.Now()
 		results := c35RunBatch(srv, batch)
+		tc := time.Now()
 		verdict := srv.canaries()
 		batches++
+		if debug {
+			fmt.Printf("C35DBG batch of %d: inputs %v, canaries %v\n", n, tc.Sub(tb).Round(time.Millisecond), time.Since(tc).Round(time.Millisecond))
+		}
 
 		for i, in := range batch {
 			r := results[i]
@@ -160,7 +175,7 @@ func c35Live(t *testing.T, name string, restricted bool) {
 				if len(note) > 300 {
 					note = note[:300] + "…"
 				}
-				fmt.Printf("C35DBG [%s] deep=%v reply=%d statuses=%v tags=%v err=%q :: %s\n", in.Cls, r.Deep, r.Reply, r.Statuses, r.Tags, r.Err, note)
+				fmt.Printf("C35DBG %4dms [%s] deep=%v reply=%d statuses=%v tags=%v err=%q :: %s\n", r.Took.Milliseconds(), in.Cls, r.Deep, r.Reply, r.Statuses, r.Tags, r.Err, note)
 			}
 		}
 
